@@ -160,33 +160,50 @@ def array_equal(a, b):
 
 # ---- randomness: oracle tape -------------------------------------------------------------------------
 class Tape:
-  """Shared by all generators constructed from the same seed (determinism of numpy's generator is the contract)."""
+  """Shared by all generators constructed from the same seed (determinism of numpy's generator is the contract).
+  A generator built with seed None is UNSEEDED: it reads from a global position that never rewinds, so two unseeded
+  generators see different draws."""
   data = []
   log = []       # ('shuffle', length, start) / ('randint', n, pos)
+  unseeded_pos = 0
+  mode = 'tape'
 
 
 class _RandomState:
   def __init__(self, seed=None):
     self.seed_value = seed
     self.pos = 0
+    self.unseeded_id = 0
+    if seed is None:
+      Tape.unseeded_pos += 1000
+      self.pos = Tape.unseeded_pos
+      self.unseeded_id = Tape.unseeded_pos // 1000
 
   def seed(self, seed=None):
-    self.seed_value = seed
-    self.pos = 0
+    self.__init__(seed)
 
   def shuffle(self, buf):
     rows = buf.rows if isinstance(buf, ndarray) else buf
     n = len(rows)
-    seg = Tape.data[self.pos:self.pos + n]
-    if len(seg) != n:
-      raise IndexError('oracle tape exhausted')
-    Tape.log.append(('shuffle', n, self.pos))
-    self.pos += n
-    rows[:] = seg
+    if Tape.mode == 'det':        # tape-free deterministic mode: seeded = rotate by 1, k-th unseeded generator = rotate by k+1
+      r = (1 + self.unseeded_id) % n if n else 0
+      rows[:] = rows[r:] + rows[:r]
+    else:
+      seg = Tape.data[self.pos:self.pos + n]
+      if len(seg) != n:
+        raise IndexError('oracle tape exhausted')
+      Tape.log.append(('shuffle', n, self.pos))
+      self.pos += n
+      if isinstance(buf, ndarray):
+        rows[:] = seg                 # index buffers: the segment IS the shuffled content (never branched on)
+      else:
+        rows[:] = [rows[p] for p in seg]   # item lists: the segment is a permutation of positions (precondition)
     if isinstance(buf, ndarray):
       buf.is_arange = False
 
   def randint(self, n):
+    if Tape.mode == 'det':
+      return self.unseeded_id % n
     v = Tape.data[self.pos]
     Tape.log.append(('randint', n, self.pos))
     self.pos += 1
@@ -205,9 +222,22 @@ class random:
   RandomState = _RandomState
 
 
+class _TapeData(list):
+  """Reads beyond the recorded tape (unseeded generators) return an out-of-band marker value."""
+
+  def __getitem__(self, i):
+    if isinstance(i, slice):
+      return [self[j] for j in range(*i.indices(max(len(self), (i.stop or 0))))]
+    if i >= len(self):
+      return -1000 - i
+    return list.__getitem__(self, i)
+
+
 def set_tape(data):
-  Tape.data = list(data)
+  Tape.data = _TapeData(data or [])
   Tape.log = []
+  Tape.unseeded_pos = 0
+  Tape.mode = 'tape' if data is not None else 'det'
 
 
 def validate():
